@@ -346,6 +346,53 @@ pub fn run(tier: Tier) -> i32 {
         }
         rep.cov("batch_boundary_cuts", json!(cuts.len()));
     }
+    // (d) truncation together with a custom-checks file whose packet-count expectation then fails (a statistics error
+    //     exists although few or no RDHs were read): cuts in and around the first RDH and the first packet
+    {
+        let b = &bs[0];
+        let (walked, _) = stream::walk(&b.bytes);
+        let mut cuts: Vec<usize> = vec![0, 1, 7, 8, 9, 20, 63, 64, 65];
+        cuts.push(walked[1].offset as usize - 1);
+        cuts.push(walked[1].offset as usize);
+        cuts.push(walked[1].offset as usize + 30);
+        cuts.retain(|c| *c <= b.bytes.len());
+        let mut jobs: Vec<(usize, Vec<&'static str>, bool)> = Vec::new();
+        for c in &cuts {
+            for m in [vec!["check", "sanity"], vec!["check", "all", "its"], vec!["view", "rdh"]] {
+                for stdin in [false, true] {
+                    jobs.push((*c, m.clone(), stdin));
+                }
+            }
+        }
+        let res = par_map(&jobs, |_, (c, m, stdin)| {
+            let scratch = Scratch::new("c18c");
+            let toml = scratch.file("checks.toml", format!("cdps = {}\n", walked.len()).as_bytes());
+            let mut a: Vec<String> = Vec::new();
+            if !*stdin {
+                a.push(scratch.file("in.raw", &b.bytes[..*c]).display().to_string());
+            }
+            a.extend(m.iter().map(|x| x.to_string()));
+            a.extend(["-c".to_string(), toml.display().to_string()]);
+            let mut run = Run::new(&a).cwd(&scratch.path);
+            if *stdin {
+                run = run.stdin(&b.bytes[..*c]);
+            }
+            let r = run.run();
+            if r.crashed() {
+                Some(("cli-abnormal-exit:custom-checks".to_string(), format!("signal {:?} timed out {}: {}", r.signal, r.timed_out, r.stderr_str().lines().find(|l| l.contains("panicked at")).unwrap_or(""))))
+            } else if !matches!(r.status, Some(0) | Some(1)) {
+                Some(("cli-exit-status:custom-checks".to_string(), format!("exit {:?}", r.status)))
+            } else {
+                None
+            }
+        });
+        for ((c, m, stdin), r) in jobs.iter().zip(res.iter()) {
+            evaluations += 1;
+            if let Some((sig, d)) = r {
+                rep.violation(Violation { signature: sig.clone(), description: format!("{d} [base {} cut at byte {c}, `{}` with a checks file expecting all {} packets, {}]", b.name, m.join(" "), walked.len(), if *stdin { "stdin" } else { "file" }), replay: json!({"kind": "cli-custom", "cut": c, "mode": m, "stdin": stdin}) });
+            }
+        }
+    }
     rep.cov("evaluations", json!(evaluations));
     rep.cov("distinct_nontrivial", json!(inside));
     rep.cov("exhaustive", json!(true));
